@@ -550,6 +550,8 @@ def parse(path, mirror, snapshot=False):
         orig = sk.get_artifacts
 
         def hook():
+            if "mesh" in snap:          # a later create_lattice() on the same reader: the snapshot belongs to the first one
+                return orig()
             snap["mesh"] = mesh_json(sk.vertices, sk.edges, sk.cells)
             snap["border"] = [int(k) for k, c in sk.cells.items() if c.is_border]
             snap["external"] = [int(k) for k, e in sk.edges.items() if e.external]
@@ -706,13 +708,42 @@ class Run:
         if got_border_now != expect["border"]:
             ck.fail("border cells are exactly the regions that touch the outside",
                     f"flagged {got_border_now}, touching the outside {expect['border']}", vcase)
-        if pairs != expect["internal"]:
+        if expect.get("internal_required") is not None:
+            # shipped in-vivo skeletons contain junction pixels one or two pixels apart (a "common boundary line" of one or two
+            # pixels, merged into one junction by the parser): required are the pairs whose common boundary has at least four
+            # skeleton pixels, allowed are all pairs of the raster oracle
+            miss = [q for q in expect["internal_required"] if q not in pairs]
+            extra = [q for q in pairs if q not in expect["internal"]] + [q for q, k in collections.Counter(pairs).items() if k > 1]
+            if miss or extra:
+                ck.fail("an internal interface for exactly the region pairs whose common boundary ends in an interior junction",
+                        f"missing {miss[:4]}, unexpected or repeated {extra[:4]} (region numbers of the base image; pairs with a common boundary "
+                        "of fewer than four pixels are optional)", vcase)
+        elif pairs != expect["internal"]:
             miss = [q for q in expect["internal"] if q not in pairs]
             extra = [q for q in pairs if q not in expect["internal"]] + [q for q, k in collections.Counter(pairs).items() if k > 1]
             ck.fail("an internal interface for exactly the region pairs whose common boundary ends in an interior junction",
                     f"missing {miss[:4]}, unexpected or repeated {extra[:4]} (region numbers of the base image)", vcase)
         if expect.get("njunc3") is not None:
             ck.count("junction_count_equals_topology" if result["junction_vertices"] == expect["njunc3"] else "junction_count_differs_from_topology")
+        if var.get("again"):
+            # the same reader is asked for its lattice again (another ne needs a new lattice: generate_mesh consumes the first one)
+            sig1 = sorted(len(cl.vertices) for cl in c.values())
+            try:
+                v2, e2, c2 = quiet_unraisable(sk.create_lattice)
+                nb2 = sum(1 for cl in c2.values() if cl.is_border)
+                bad2 = py_consistent(v2, e2, c2)
+                ne2 = 3 + (var["ne"] - 3 + 2) % 7
+                v2, e2, c2, _ = quiet_unraisable(ve.generate_mesh, v2, e2, c2, ne=ne2)
+                fr2 = quiet_unraisable(fs.frames.Frame, 0, v2, e2, c2, time=0)
+                self.keep.append((fr2, v2, e2, c2))
+                if bad2:
+                    ck.fail("mesh consistent after create_lattice", "second lattice of the same reader: " + "; ".join(bad2[:3]), vcase)
+                elif len(c2) != n or nb2 != len(expect["border"]):
+                    ck.fail("exactly one cell per enclosed region", f"second lattice of the same reader: {len(c2)} cells ({nb2} flagged as border), "
+                            f"{n} enclosed regions ({len(expect['border'])} touching the outside)", vcase)
+            except Exception as ex:   # noqa: BLE001
+                ck.fail("parsing completes", f"second create_lattice / generate_mesh / Frame on the same reader raised {type(ex).__name__}: {str(ex)[:80]}", vcase)
+            ck.count("second_lattice_of_the_same_reader")
         ck.count("variants_run")
         ck.count("sym_" + var["sym"])
         ck.count("ne_%d" % var["ne"])
@@ -740,6 +771,8 @@ def make_variants(rng, k, all_syms=False):
         pad = [int(x) for x in rng.integers(0, 5, size=4)] if rng.random() < 0.6 else [0, 0, 0, 0]
         out.append({"sym": sym, "mirror": bool(rng.integers(2)), "pad": pad, "frame": bool(rng.integers(2)),
                     "ne": int(rng.integers(3, 10))})
+    for i, o in enumerate(out):
+        o["again"] = bool(i % 2 == 0)
     return out
 
 
@@ -802,6 +835,17 @@ def shipped_case(run, case):
     base = (a[1:-1, 1:-1] > 0).astype(np.uint8)          # the file carries a white frame: the parser's crop removes it
     orc = py_raster(base)
     expect = {"border": orc["border"], "internal": orc["internal"], "njunc3": None}
+    if case.get("short_boundaries_optional"):
+        lab_ = orc["lab"]
+        cnt = collections.Counter()
+        rs_, cs_ = np.nonzero(base)
+        for r_, c_ in zip(rs_, cs_):
+            reg_ = sorted(x for x in set(np.unique(lab_[max(r_ - 1, 0):r_ + 2, max(c_ - 1, 0):c_ + 2]).tolist()) if 0 < x <= orc["n"])
+            for i_ in range(len(reg_)):
+                for j_ in range(i_ + 1, len(reg_)):
+                    cnt[(reg_[i_], reg_[j_])] += 1
+        expect["internal_required"] = [q for q in orc["internal"] if cnt[tuple(q)] >= 4]
+        ck.count("in_vivo_pairs_with_short_common_boundary", len(orc["internal"]) - len(expect["internal_required"]))
     ck.count("shipped_regions", orc["n"])
     results = []
     for i, var in enumerate(case["variants"]):
@@ -882,6 +926,13 @@ def gen_cases(ck):
     if not quick:
         vs = vs[:8] + [dict(v, mirror=True) for v in vs[:8]] + vs[16:]
     cases.append({"type": "shipped", "seed": 0, "path": "tests/data/test_nonzero.tif", "variants": vs, "k": True})
+    # the shipped in-vivo skeletons (junctions where four cells meet occur in some of them): oracle only
+    for k_ in ([int(ck.seed) % 5, (int(ck.seed) + 1) % 5] if quick else range(5)):
+        cases.append({"type": "shipped", "seed": 0, "path": f"examples/data/in_vivo/t_{k_}.tif",
+                      "variants": [{"sym": "id", "mirror": False, "pad": [0, 0, 0, 0], "frame": False, "ne": int(rng.integers(3, 10)), "again": True},
+                                   {"sym": list(SYMS)[1 + int(rng.integers(7))], "mirror": bool(rng.integers(2)), "pad": [0, 0, 0, 0], "frame": False,
+                                    "ne": int(rng.integers(3, 10)), "again": False}],
+                      "k": False, "short_boundaries_optional": True})
     # rasterised tissues: small ones also go through the model (K), all through the oracle (S)
     n_small, n_big = (8, 10) if quick else (20, 24)
     for i in range(n_small):
